@@ -633,6 +633,13 @@ class Statistics:
         """
         name = self._cm_name
         self._cm_name = None
+        if any(op_stat is not None and op_stat.name == name
+               for op_stat in self._cm_stack):
+            # Nested use of the same name (e.g. a recursive function): The
+            # outermost context measures it; an operation statistic has only
+            # one timer.
+            self._cm_stack.append(None)
+            return self
         op_stat = self.start_timer(name)
         self._cm_stack.append(op_stat)
         return self
@@ -644,7 +651,8 @@ class Statistics:
         Stops the operation statistics that was started in the enter method.
         """
         op_stat = self._cm_stack.pop()
-        op_stat.stop_timer()
+        if op_stat is not None:
+            op_stat.stop_timer()
         return False  # re-raise any exceptions
 
     def __call__(self, name):
